@@ -343,7 +343,7 @@ func (f *OrefaFile) ReadDir(n int) ([]fs.DirEntry, error) {
 	}
 
 	end := start + n
-	if end > len(f.dirEntries) {
+	if end > len(f.dirEntries) || end < start { // end < start : start + n overflowed.
 		end = len(f.dirEntries)
 	}
 
@@ -422,7 +422,7 @@ func (f *OrefaFile) Readdirnames(n int) (names []string, err error) {
 	}
 
 	end := start + n
-	if end > len(f.dirNames) {
+	if end > len(f.dirNames) || end < start { // end < start : start + n overflowed.
 		end = len(f.dirNames)
 	}
 
